@@ -518,7 +518,7 @@ class StmtMixin:
             st.env[n] = self.fresh_sv(ty, n, st)
         fields = self.assigned_fields(nodes)
         local = {}
-        for m in self.contract.modifies:
+        for m in spec.get("modifies", self.contract.modifies):
             if m in C.GHOSTS:
                 if m not in st.env:
                     self.ghost_entry(m, st)
